@@ -28,6 +28,9 @@ SPEC = dict(
         'compare/compareIgnoreCase results are compared by sign only; case mapping is ASCII A-Z/a-z only (all 256 byte values checked)',
         'C-string based members (compare*, find(str)*, replace, case mapping, trim, token, split, printf) are only exercised on NUL-free contents (statement: NUL-free for the C-string based searches)',
         'integer/double/bool/hex/base64 conversions, scanf and character classification are covered by C18, not here',
+        'fallback build (-DVERIF_NO_PRIVATE, used when the private representation of String no longer matches the harness): state classes are the harness\'s own record of how each '
+        'String object got its value (holders outside the slots, e.g. list elements, only while the harness knows of them); bytes of a variable whose C-string view is not taken in a check are '
+        'compared through operator==/!= with a String attached to the model bytes; every other oracle is unchanged',
     ],
     technique='reference-model monitor + source-memory comparison under ASan/UBSan',
     exhaustive={Q: False, T: False},
